@@ -5,6 +5,7 @@ import (
 	"encoding/json"
 	"fmt"
 	"os"
+	"strings"
 
 	"github.com/bufbuild/protocompile/ast"
 )
@@ -25,6 +26,7 @@ type unitRec struct {
 }
 
 type mismatch struct {
+	Idx    int      `json:"idx"` // 0-based line number of the case in the input
 	Class  string   `json:"class"`
 	Text   string   `json:"text"`
 	Units  []string `json:"units,omitempty"`
@@ -33,14 +35,16 @@ type mismatch struct {
 
 type unitStats struct {
 	Cases, Checks, DirectChecks, ItemsMatched, ExpectedStarts, MissingStarts int
-	ErrorsChecked, NodesChecked, MidCharSkipped, ColUndefinedSkipped      int
-	CasesWithLexError, CasesWithNodes, EmptyASTs, OrphanComments        int
+	ErrorsChecked, NodesChecked, MidCharSkipped, ColUndefinedSkipped         int
+	CasesWithLexError, CasesWithNodes, EmptyASTs, OrphanComments             int
 }
 
-func runUnits(in *bufio.Scanner, out *bufio.Writer) error {
+func runUnits(in *bufio.Scanner, out *bufio.Writer, noRef bool) error {
 	enc := json.NewEncoder(out)
 	var st unitStats
+	idx := -1
 	for in.Scan() {
+		idx++
 		var c unitCase
 		if err := json.Unmarshal(in.Bytes(), &c); err != nil {
 			return fmt.Errorf("bad case: %v", err)
@@ -73,19 +77,36 @@ func runUnits(in *bufio.Scanner, out *bufio.Writer) error {
 			return fmt.Errorf("concretisation disagrees with spec offsets: %q", data)
 		}
 		byOff := make(map[int][4]int, len(c.Bnd))
-		for _, b := range c.Bnd {
-			byOff[b[0]] = b
-			l, col, onB, def := refPos(data, b[0])
-			if !onB || l != b[1] || col != b[2] || def != (b[3] == 1) {
-				return fmt.Errorf("driver refPos disagrees with SrcText on %q at %d: (%d,%d,%v,%v) vs %v", data, b[0], l, col, onB, def, b)
+		rt := refTable(data)
+		nb := 0
+		for _, e := range rt {
+			if e.boundary {
+				nb++
 			}
 		}
-		if lt := refLineTable(data); len(lt) != c.NLines {
+		if !noRef && nb != len(c.Bnd) {
+			return fmt.Errorf("driver refTable disagrees with SrcText on %q: %d boundaries vs %d", data, nb, len(c.Bnd))
+		}
+		for _, b := range c.Bnd {
+			byOff[b[0]] = b
+			e := rt[b[0]]
+			if !noRef && (!e.boundary || e.line != b[1] || e.col != b[2] || e.colDefined != (b[3] == 1)) {
+				return fmt.Errorf("driver refTable disagrees with SrcText on %q at %d: %+v vs %v", data, b[0], e, b)
+			}
+		}
+		if lt := refLineTable(data); !noRef && len(lt) != c.NLines {
 			return fmt.Errorf("driver refLineTable disagrees with SrcText on %q: %d lines vs %d", data, len(lt), c.NLines)
 		}
 		report := func(class, detail string) {
-			_ = enc.Encode(mismatch{Class: class, Text: string(data), Units: names, Detail: detail})
+			_ = enc.Encode(mismatch{Idx: idx, Class: class, Text: string(data), Units: names, Detail: detail})
 		}
+		// position mismatches are collected per case and classified by failure mode at its end
+		type posMiss struct {
+			where, detail string
+			off           int
+		}
+		var lineMiss, colMiss []posMiss
+		var lineGood []int
 		// compare one real position with the table; where names the observation point
 		check := func(where string, p ast.SourcePos) {
 			want, ok := byOff[p.Offset]
@@ -95,15 +116,16 @@ func runUnits(in *bufio.Scanner, out *bufio.Writer) error {
 			}
 			st.Checks++
 			if p.Line != want[1] {
-				report(where+":line", fmt.Sprintf("offset %d: got %d:%d want %d:%d", p.Offset, p.Line, p.Col, want[1], want[2]))
+				lineMiss = append(lineMiss, posMiss{where, fmt.Sprintf("%s at offset %d: got %d:%d want %d:%d", where, p.Offset, p.Line, p.Col, want[1], want[2]), p.Offset})
 				return
 			}
+			lineGood = append(lineGood, p.Offset)
 			if want[3] == 0 {
 				st.ColUndefinedSkipped++
 				return
 			}
 			if p.Col != want[2] {
-				report(where+":col", fmt.Sprintf("offset %d: got %d:%d want %d:%d", p.Offset, p.Line, p.Col, want[1], want[2]))
+				colMiss = append(colMiss, posMiss{where, fmt.Sprintf("%s at offset %d: got %d:%d want %d:%d", where, p.Offset, p.Line, p.Col, want[1], want[2]), p.Offset})
 			}
 		}
 		// exclusive end: (line, col) reported for the position after the character that ends at endOff
@@ -115,16 +137,74 @@ func runUnits(in *bufio.Scanner, out *bufio.Writer) error {
 			}
 			st.Checks++
 			if p.Line != want[1] {
-				report(where+":line", fmt.Sprintf("end offset %d: got %d:%d want %d:%d", endOff, p.Line, p.Col, want[1], want[2]))
+				lineMiss = append(lineMiss, posMiss{where, fmt.Sprintf("%s, end offset %d: got %d:%d want %d:%d", where, endOff, p.Line, p.Col, want[1], want[2]), endOff})
 				return
 			}
+			lineGood = append(lineGood, endOff)
 			if want[3] == 0 {
 				st.ColUndefinedSkipped++
 				return
 			}
 			if p.Col != want[2] {
-				report(where+":col", fmt.Sprintf("end offset %d: got %d:%d want %d:%d", endOff, p.Line, p.Col, want[1], want[2]))
+				colMiss = append(colMiss, posMiss{where, fmt.Sprintf("%s, end offset %d: got %d:%d want %d:%d", where, endOff, p.Line, p.Col, want[1], want[2]), endOff})
 			}
+		}
+		// classification by failure mode: a wrong line is blamed on the unit that holds the first LF
+		// between the last right and the first wrong position (the LF the line table lost or invented); a wrong column on
+		// the observation point and the kinds of wide / multi-byte characters before it on its line
+		flush := func(prefix string) {
+			if len(lineMiss) > 0 {
+				first := lineMiss[0]
+				for _, m := range lineMiss {
+					if m.off < first.off {
+						first = m
+					}
+				}
+				lastGood := 0
+				for _, g := range lineGood {
+					if g < first.off && g > lastGood {
+						lastGood = g
+					}
+				}
+				blame := "none"
+				for i := lastGood; i < first.off; i++ {
+					if data[i] == '\n' {
+						for _, u := range units {
+							if c.Bnd[u.k][0] <= i {
+								blame = u.name
+							}
+						}
+						break
+					}
+				}
+				report(prefix+"line:newline-in-"+blame, fmt.Sprintf("%d wrong lines; first: %s", len(lineMiss), first.detail))
+			}
+			seen := map[string]bool{}
+			for _, m := range colMiss {
+				feat := ""
+				for i := m.off - 1; i >= 0 && data[i] != '\n'; i-- {
+					var f string
+					switch {
+					case data[i] == '\t':
+						f = "tab"
+					case data[i] == '\r':
+						f = "cr"
+					case data[i] == 0:
+						f = "nul"
+					case data[i] >= 0x80:
+						f = "multibyte"
+					}
+					if f != "" && !strings.Contains(feat, f) {
+						feat += "+" + f
+					}
+				}
+				cls := prefix + "col:" + m.where + feat
+				if !seen[cls] {
+					seen[cls] = true
+					report(cls, m.detail)
+				}
+			}
+			lineMiss, colMiss, lineGood = nil, nil, nil
 		}
 
 		// (A) position computation alone: a FileInfo whose line table is filled in as AddLine documents
@@ -184,9 +264,14 @@ func runUnits(in *bufio.Scanner, out *bufio.Writer) error {
 			}
 			s, e := info.Start(), info.End()
 			raw := info.RawText()
-			itemAt[s.Offset] = it
+			if len(raw) > 0 {
+				itemAt[s.Offset] = it
+			}
 			check("item-start", s)
-			if _, cmt := f.GetItem(it); cmt.IsValid() && !orphan {
+			if orphan {
+				// TokenInfo on a comment item is only a way to reach its start; its End() is not
+				// specified for an item that may end in a multi-byte character
+			} else if _, cmt := f.GetItem(it); cmt.IsValid() {
 				// Comment.End() reports the position OF the last byte
 				check("comment-end", e)
 			} else if len(raw) > 0 {
@@ -246,6 +331,7 @@ func runUnits(in *bufio.Scanner, out *bufio.Writer) error {
 			}
 			return nil
 		}})
+		flush("")
 		if nodes > 2 {
 			st.CasesWithNodes++
 		}
